@@ -19,7 +19,10 @@ Exp(line) == Audits(line.in.items, 1)
 Violations(line) ==
   IF line.obs.panic THEN {"no-panic"}
   ELSE IF Len(line.obs.audits) # Len(Exp(line)) THEN {"length"}
-  ELSE LET n == FirstBad(Exp(line), line.obs.audits) IN IF n = 0 THEN {} ELSE AuditBad(Exp(line)[n], line.obs.audits[n])
+  ELSE LET n == FirstBad(Exp(line), line.obs.audits) IN
+       (IF n = 0 THEN {} ELSE AuditBad(Exp(line)[n], line.obs.audits[n]))
+       \* an envelope that was handed out stays what it was, whatever is listed or fetched afterwards
+       \cup (IF line.obs.heldChanged THEN {"handed-out-envelope-changed-later"} ELSE {})
 Why(line) == IF line.obs.panic \/ Len(line.obs.audits) # Len(Exp(line)) THEN "-"
              ELSE LET n == FirstBad(Exp(line), line.obs.audits) IN IF n = 0 THEN "-" ELSE "after-" \o line.in.items[n].kind
 
